@@ -4,6 +4,7 @@ import (
 	"fmt"
 	"regexp"
 	"sort"
+	"strconv"
 	"strings"
 
 	"verif.test/mc/explore"
@@ -87,6 +88,9 @@ func colAlts() []colAlt {
 		{label: "Shape", typ: "Shape", declB: tblUnion},
 		{label: "Shapes", typ: "Shapes", declB: tblUnion + "\ntype Shapes []Shape\n"},
 		{label: "Drawing", typ: "Drawing", declB: tblUnion + "\ntype Drawing struct {\n\tMain  Shape\n\tMood  Mood\n\tRank  Role\n\tNote  string `json:\"note,omitempty\"`\n\tCount int `json:\",omitempty\"`\n\tExtra map[string]Circle\n}\n"},
+		// unions whose members all share one validation function: two named floats; a single member
+		{label: "Measure", typ: "Measure", declB: "type Quantity interface {\n\tisQuantity()\n}\n\ntype Celsius float64\n\ntype Meters float64\n\nfunc (Celsius) isQuantity() {}\nfunc (Meters) isQuantity()  {}\n\ntype Measure struct {\n\tQ     Quantity\n\tLabel string\n}\n"},
+		{label: "Solo", typ: "Solo", declB: "type Solo interface {\n\tisSolo()\n}\n\ntype Only struct {\n\tV int\n}\n\nfunc (Only) isSolo() {}\n"},
 		{label: "Scene", typ: "Scene", declB: tblUnion + "\ntype Drawable interface {\n\tisDrawable()\n}\n\ntype Text struct {\n\tS string\n}\n\nfunc (Circle) isDrawable() {}\nfunc (Text) isDrawable()   {}\n\ntype Drawables []Drawable\n\ntype Scene struct {\n\tMain  Shape\n\tExtra Drawables\n}\n"},
 		{label: "sql.NullInt64", typ: "sql.NullInt64"},
 		{label: "sql.NullString", typ: "sql.NullString"},
@@ -195,6 +199,14 @@ func TablesWith(c explore.Chooser, defaultCol string) *prog.Program {
 	linkCol := s.Pick("link.extra-col", "none", "composite", "array", "json")
 	keyColName := s.Pick("name.key-column", "Name", "Émail")
 	// the helper package named like the analysed package (models importing models/models)
+	// a string enum value with a character that SQL or Go quoting treats specially
+	sadValue := s.Pick("mood.sad-value", `sa d`, `can't`, `so "so"`, `up\down`)
+	// the JSON name of the key column differs from its field name
+	keyColTag := s.Pick("name.key-tag", "", " `json:\"full_name\"`")
+	if keyColTag != "" && userDir == "" {
+		// the tag only matters to the by-unique / by-key functions: ask for them in the same deviation
+		userDir = "// gomacro:SQL ADD UNIQUE(Name)\n// gomacro:SQL _SELECT KEY(Name, Role)"
+	}
 	extName := s.Pick("ext.pkgname", "ext", "models")
 	extPath = rootPath + "/" + extName
 
@@ -208,7 +220,7 @@ func TablesWith(c explore.Chooser, defaultCol string) *prog.Program {
 	case "unexported-duplicate":
 		b.WriteString("type Role uint8\n\nconst (\n\tOwner Role = iota\n\tAdmin             // administrator\n\tMember\n\tSenior\n)\n\nconst guest = Member\n\n")
 	}
-	b.WriteString("type Mood string\n\nconst (\n\tHappy Mood = \"happy\"\n\tSad   Mood = \"sa d\"\n\tNamed Mood = \"User\" // a value spelled like a table struct\n\tWordy Mood = \"a mood whose description is so long that it does not fit in seventy-two characters at all\"\n)\n\n")
+	b.WriteString("type Mood string\n\nconst (\n\tHappy Mood = \"happy\"\n\tSad   Mood = " + strconv.Quote(sadValue) + "\n\tNamed Mood = \"User\" // a value spelled like a table struct\n\tWordy Mood = \"a mood whose description is so long that it does not fit in seventy-two characters at all\"\n)\n\n")
 	b.WriteString(col.declB)
 	b.WriteString("\n")
 	ext.WriteString("type Pos struct {\n\tLat, Lng int32\n}\n\ntype Level int\n\nconst (\n\tLow Level = iota + 1\n\tHigh\n)\n\ntype IdRemote int64\n")
@@ -221,7 +233,7 @@ func TablesWith(c explore.Chooser, defaultCol string) *prog.Program {
 	if dirtyFirst == "yes" { // an unexported field that is not a guard, declared before the id
 		uf = append([]string{"\tdirty bool"}, uf...)
 	}
-	uf = append(uf, "\tName string", "\tRole Role", "\tMood Mood", "\tSeen time.Time")
+	uf = append(uf, "\tName string"+keyColTag, "\tRole Role", "\tMood Mood", "\tSeen time.Time")
 	uf = append(uf, fmt.Sprintf("\t%s %s %s", colName, col.typ, colTag))
 	switch guard {
 	case "literal-before-id":
